@@ -117,8 +117,84 @@ let c04 file =
     | "setup" :: _ -> print_endline line
     | _ -> ()) (read_lines file)
 
+(* ---------------------------------------------------------------- C11 *)
+let r32 x = Int32.float_of_bits (Int32.bits_of_float x)
+let floats_of_hex h =
+  if h = "-" then [||] else
+  Array.init (String.length h / 8) (fun i -> Int32.float_of_bits (Int32.of_string ("0x" ^ String.sub h (8*i) 8)))
+let hex_of_floats a lo n =
+  if n <= 0 then "-" else begin
+    let b = Buffer.create (8*n) in
+    for i = lo to lo + n - 1 do Buffer.add_string b (Printf.sprintf "%08lx" (Int32.bits_of_float a.(i))) done;
+    Buffer.contents b end
+let dst s = Printf.sprintf " ; %d %d %d %d %d %d %d %d" (iz s.d_centerW) (iz s.d_cur) (iz s.d_ret) (iz s.d_gran)
+    (iz s.d_seq) (b2i s.d_lW) (b2i s.d_W) (iz s.d_count)
+let c11 file =
+  let cfg = ref { bs0 = zi 0; bs1 = zi 0; hs = zi 0 } and ch = ref 1 in
+  let ds = ref (dec_init !cfg) in
+  let size = ref 0 in
+  let buf = ref [||] in                       (* symbolic cells, shared by all channels *)
+  let wins : (int, float array) Hashtbl.t = Hashtbl.create 4 in
+  let pcm : (int * int, float array) Hashtbl.t = Hashtbl.create 64 in   (* (packet, channel) -> injected block *)
+  let kcur = ref 0 in
+  let pending_out = ref (0, 0) in             (* (lo, n) of the samples the next `out` lines must show *)
+  let rec eval c e = match e with
+    | SInit _ -> 0.0
+    | SPcm (k, i) -> (try (Hashtbl.find pcm (iz k, c)).(iz i) with _ -> nan)
+    | SLap (a, wa, b, wb, wn) ->
+        let w = try Hashtbl.find wins (iz wn) with Not_found -> [||] in
+        let g i = if i >= 0 && i < Array.length w then w.(i) else nan in
+        r32 (r32 (eval c a *. g (iz wa)) +. r32 (eval c b *. g (iz wb))) in
+  let materialize f =
+    let old = !buf in ignore old;
+    buf := Array.init !size (fun i -> f (zi i)) in
+  let lookup () = let old = !buf in fun j -> let j = iz j in if j >= 0 && j < Array.length old then old.(j) else SInit (zi j) in
+  List.iter (fun line ->
+    match split line with
+    | "case" :: _ -> print_endline line
+    | ["cfg"; a; b; h; c] ->
+        cfg := { bs0 = zi (int_of_string a); bs1 = zi (int_of_string b); hs = zi (int_of_string h) };
+        ch := int_of_string c; ds := dec_init !cfg; Hashtbl.reset wins; Hashtbl.reset pcm; kcur := 0;
+        size := 2 * iz (half !cfg true);
+        buf := Array.init !size (fun i -> SInit (zi i));
+        print_endline line
+    | ["win"; wn; h] -> Hashtbl.replace wins (int_of_string wn) (floats_of_hex h); print_endline line
+    | "B" :: w :: g :: sq :: eos :: pf :: "|" :: sr :: _ ->
+        if int_of_string sr <> 0 then Printf.printf "B %s %s %s %s %s | %s -999 model-skips\n" w g sq eos pf sr
+        else begin
+          let b = { k_W = (w = "1"); k_gran = zi (int_of_string g); k_seq = zi (int_of_string sq);
+                    k_eof = (eos = "1"); k_pcm = (pf = "1") } in
+          let s0 = !ds in
+          let (rc, s1) = dec_blockin !cfg s0 b in
+          incr kcur;
+          if iz rc = 0 && b.k_pcm then materialize (blockin_buf !cfg s0 b (zi !kcur) (lookup ()));
+          ds := s1;
+          let cnt = iz (dec_pcmout s1) in
+          pending_out := (iz s1.d_ret, cnt);
+          Printf.printf "B %s %s %s %s %s | 0 %d%s ; %d\n" w g sq eos pf (iz rc) (dst s1) cnt
+        end
+    | ["in"; c; h] -> Hashtbl.replace pcm (!kcur, int_of_string c) (floats_of_hex h); print_endline line
+    | ["out"; c; _] ->
+        let (lo, n) = !pending_out in
+        let ci = int_of_string c in
+        let vals = Array.init (max n 0) (fun i -> eval ci (!buf).(lo + i)) in
+        Printf.printf "out %s %s\n" c (hex_of_floats vals 0 n)
+    | "P" :: n :: _ ->
+        let (rc, s1) = dec_read !ds (zi (int_of_string n)) in ds := s1;
+        Printf.printf "P %s | %d%s\n" n (iz rc) (dst s1)
+    | "R" :: _ -> ds := dec_restart !cfg !ds; Printf.printf "R | 0%s\n" (dst !ds)
+    | "L" :: _ ->
+        let s0 = !ds in
+        let (r, s1) = dec_lapout !cfg s0 in
+        materialize (lapout_buf !cfg s0 (lookup ()));
+        ds := s1; pending_out := (iz s1.d_ret, iz r);
+        Printf.printf "L | %d%s\n" (iz r) (dst s1)
+    | "S" :: _ | "hdr" :: _ | "halfrate" :: _ | "setup" :: _ -> print_endline line
+    | _ -> ()) (read_lines file)
+
 let () =
   match Array.to_list Sys.argv with
+  | [_; "c11"; f] -> c11 f
   | [_; "c04"; f] -> c04 f
   | [_; "c16"; f] -> c16 f
   | _ -> prerr_endline "usage: driver <mode> <cases>"; exit 2
